@@ -14,3 +14,4 @@ from vt.contracts import iface_gen  # noqa: F401,E402
 from vt.contracts import interp_sym  # noqa: F401,E402
 from vt.contracts import bwgen_sym  # noqa: F401,E402
 from vt.contracts import loops  # noqa: F401,E402  (multi_sampling exact count: loop VCs)
+from vt.contracts import hist_modular  # noqa: F401,E402  (Hist1D.histogram against a recording numpy.histogram)
